@@ -1,10 +1,10 @@
 package main
 
 import (
-	"sort"
 	"fmt"
 	"go/token"
 	"go/types"
+	"sort"
 	"strings"
 
 	"golang.org/x/tools/go/ssa"
@@ -868,7 +868,6 @@ func isElemOf(v ssa.Value, call *ssa.Call) bool {
 	}
 	return false
 }
-
 
 // stringConstsFlowingInto: the string constants ending in "-tag-regex" (configuration keys) among the values v
 // is computed from (backward slice through operands, phis, tuples and local memory cells).
